@@ -12,6 +12,8 @@ Require Import TL.Model.IsoText.
 Require Import TL.Model.ScalarsToy.
 Require Import TL.Proofs.IsoTextLemmas.
 Require Import TL.Proofs.ScalarsToyLemmas.
+Require Import TL.Model.IsoHistory.
+Require Import TL.Proofs.IsoHistoryLemmas.
 Open Scope Z_scope.
 
 (* ------------------------------------------------------------------ durations: what typelib writes itself *)
@@ -59,6 +61,27 @@ Proof. exact memo_transparent. Qed.
 Example C04_iso_cache_example :
   Forall (fun e => snd e = iso_duration (fst e)) [((1, 0, 0), "P1D"%string)] /\ cached_iso [((1, 0, 0), "P1D"%string)] (1, 0, 0) = "P1D"%string.
 Proof. split; [repeat constructor|reflexivity]. Qed.
+
+(* ... along ANY history of the four text-emitting operations (serdes.isoformat, marshal, unmarshal into str / bytes),
+   on any mix of dates, times, datetimes and timedeltas: each call returns what it returns on empty caches.  In
+   particular a value formatted after an equal-but-differently-represented one (the same instant written with another
+   UTC offset -- any two offsets, 24 h apart included --, the other fold, the same duration in another spelling) gets
+   ITS OWN text: date/time/datetime text is never memoised, the duration memo is keyed on the normalised fields. *)
+Theorem C04_history_transparent : forall rt m h, memo_ok m -> run_hist rt m h = run_cold rt h.
+Proof. intros rt m h Hm. exact (hist_transparent rt h m Hm). Qed.
+(* ... and the operations of a history are the routines of the model *)
+Theorem C04_history_ops : forall rt v, is_temporal v = true ->
+  unm_str rt v = Ok (hop_out rt HStr (isoformat rt v)) /\ unm_bytes rt v = Ok (hop_out rt HBytes (isoformat rt v)).
+Proof. exact hop_is_routine. Qed.
+(* 2020-01-01T00:00-01:00 and 2020-01-02T00:00+23:00 are one instant (offsets 24 h apart); P8D twice hits the memo *)
+Example C04_history_example :
+  memo_ok [] /\
+  run_hist toy_rt []
+    [(HIso, VDateTime {| dy := 2020; dmo := 1; dd := 1; dh := 0; dmi := 0; ds := 0; dus := 0; doff := Some (-3600); dfold := 0 |});
+     (HBytes, VDateTime {| dy := 2020; dmo := 1; dd := 2; dh := 0; dmi := 0; ds := 0; dus := 0; doff := Some 82800; dfold := 0 |});
+     (HMarshal, VTimeDelta 8 0 0); (HStr, VTimeDelta 8 0 0)]
+  = [VText CStr "2020-01-01T00:00:00-01:00"; VText CBytes "2020-01-02T00:00:00+23:00"; VText CStr "P8D"; VText CStr "P8D"].
+Proof. split; [constructor|vm_compute; reflexivity]. Qed.
 
 (* ------------------------------------------------------------------ text round trips, from the stated laws *)
 Theorem C04_dur_roundtrip : forall rt, RuntimeLaws rt -> forall c td, td_in_range td = true ->
@@ -133,6 +156,8 @@ Print Assumptions C04_not_full.
 Print Assumptions C04_refuted_weeks.
 Print Assumptions C04_refuted_negative.
 Print Assumptions C04_iso_cache_transparent.
+Print Assumptions C04_history_transparent.
+Print Assumptions C04_history_ops.
 Print Assumptions C04_dur_roundtrip.
 Print Assumptions C04_text_int.
 Print Assumptions C04_text_float.
@@ -232,3 +257,4 @@ Print Assumptions C04_text_int_on_toy.
 Print Assumptions C04_dur_roundtrip_on_toy.
 Print Assumptions C04_text_date_on_toy.
 Print Assumptions C04_text_enum_on_toy.
+Print Assumptions C04_history_example.
